@@ -20,7 +20,7 @@ instance (s : St) : Decidable (HeapOrd s) :=
     ⟨fun h i h0 hi => h i hi h0, fun h i hi h0 => h i h0 hi⟩
 instance (s : St) : Decidable (Inv s) := by unfold Inv; infer_instance
 
-theorem inv_init (d : Bool) : Inv (init d) := ⟨idxInv_init d, heapOrd_init d⟩
+theorem inv_init (d : Cmp) : Inv (init d) := ⟨idxInv_init d, heapOrd_init d⟩
 
 /-! ## heap order through the queue operations -/
 
@@ -95,11 +95,11 @@ theorem inv_final_of (s : St) (ops : List Op) (hs : Inv s) : Inv (final s ops) :
   | cons op ops ih => exact ih _ (inv_step s op hs)
 
 /-- The invariant holds after every history of requests on a fresh queue. -/
-theorem inv_final (d : Bool) (ops : List Op) : Inv (final (init d) ops) :=
+theorem inv_final (d : Cmp) (ops : List Op) : Inv (final (init d) ops) :=
   inv_final_of _ ops (inv_init d)
 
 /-- … and so for the state `run` ends in. -/
-theorem inv_run (d : Bool) (ops : List Op) : Inv (run (init d) ops).1 := by
+theorem inv_run (d : Cmp) (ops : List Op) : Inv (run (init d) ops).1 := by
   rw [run_fst]; exact inv_final d ops
 
 /-! ## outputs -/
@@ -111,7 +111,7 @@ theorem peek_none_iff (s : St) : peek s = none ↔ s.arr = [] := by
 
 /-- `Peek` on an ordered heap returns a best element of the array. -/
 theorem peek_spec (s : St) (hs : HeapOrd s) (hne : s.arr ≠ []) :
-    ∃ e, peek s = some e ∧ e ∈ s.arr ∧ ∀ x ∈ s.arr, lessK s.desc x.key e.key = false := by
+    ∃ e, peek s = some e ∧ e ∈ s.arr ∧ ∀ x ∈ s.arr, lessK s.cmp x.key e.key = false := by
   have hl : s.arr.length ≠ 0 := by simpa using hne
   refine ⟨s.at 0, by simp [peek, hl], at_mem s 0 (by omega), root_min_mem s hs⟩
 
@@ -123,13 +123,13 @@ theorem pop_none_iff (s : St) : (pop s).2 = none ↔ s.arr = [] := by
 theorem pop_empty (s : St) (h : s.arr = []) : pop s = (s, none) := by
   simp [pop, h]
 
-@[simp] theorem pop_desc (s : St) : (pop s).1.desc = s.desc := by
+@[simp] theorem pop_cmp (s : St) : (pop s).1.cmp = s.cmp := by
   unfold pop; split <;> simp
 
 /-- `Pop` on an ordered non-empty heap returns a best element `e` of the array, and exactly `e`
 leaves the array. -/
 theorem pop_spec (s : St) (hs : HeapOrd s) (hne : s.arr ≠ []) :
-    ∃ e, (pop s).2 = some e ∧ e ∈ s.arr ∧ (∀ x ∈ s.arr, lessK s.desc x.key e.key = false) ∧
+    ∃ e, (pop s).2 = some e ∧ e ∈ s.arr ∧ (∀ x ∈ s.arr, lessK s.cmp x.key e.key = false) ∧
       s.arr.Perm (e :: (pop s).1.arr) := by
   have hl : s.arr.length ≠ 0 := by simpa using hne
   refine ⟨(heapPop s).2, by simp [pop, hl], ?_, ?_, ?_⟩
@@ -148,7 +148,7 @@ theorem pop_eq_peek (s : St) : (pop s).2 = peek s := by
 theorem popAllAux_spec (fuel : Nat) (s : St) (acc : List Elem) (hs : HeapOrd s)
     (hf : s.arr.length ≤ fuel) :
     ∃ l, (popAllAux fuel s acc).2 = acc ++ l ∧ l.Perm s.arr ∧ (popAllAux fuel s acc).1.arr = [] ∧
-      l.Pairwise (fun a b => lessK s.desc b.key a.key = false) := by
+      l.Pairwise (fun a b => lessK s.cmp b.key a.key = false) := by
   induction fuel generalizing s acc with
   | zero =>
     exact ⟨[], by simp [popAllAux], by simp [List.length_eq_zero_iff.1 (Nat.le_zero.1 hf)],
@@ -162,7 +162,7 @@ theorem popAllAux_spec (fuel : Nat) (s : St) (acc : List Elem) (hs : HeapOrd s)
       have hperm := heapPop_perm s hne
       refine ⟨(heapPop s).2 :: l, by simp [h1], ?_, h3, ?_⟩
       · exact (List.Perm.cons _ h2).trans hperm.symm
-      · rw [heapPop_desc] at h4
+      · rw [heapPop_cmp] at h4
         refine List.Pairwise.cons ?_ h4
         intro x hx
         rw [heapPop_elem s hne]
@@ -175,7 +175,7 @@ theorem popAllAux_spec (fuel : Nat) (s : St) (acc : List Elem) (hs : HeapOrd s)
 /-- `PopAll` on an ordered heap empties the array and returns all its elements, best first. -/
 theorem popAll_spec (s : St) (hs : HeapOrd s) :
     (popAll s).2.Perm s.arr ∧ (popAll s).1.arr = [] ∧
-      (popAll s).2.Pairwise (fun a b => lessK s.desc b.key a.key = false) := by
+      (popAll s).2.Pairwise (fun a b => lessK s.cmp b.key a.key = false) := by
   obtain ⟨l, h1, h2, h3, h4⟩ := popAllAux_spec s.arr.length s [] hs (Nat.le_refl _)
   simp only [List.nil_append] at h1
   unfold popAll
@@ -183,7 +183,7 @@ theorem popAll_spec (s : St) (hs : HeapOrd s) :
   exact ⟨h2, h3, h4⟩
 
 /-- An element above the root of an ordered heap is above every element. -/
-theorem lessK_of_root (d : Bool) (p r x : Int) (h1 : lessK d p r = true)
+theorem lessK_of_root (d : Cmp) (p r x : Int) (h1 : lessK d p r = true)
     (h2 : lessK d x r = false) : lessK d p x = true := by
   cases h : lessK d p x
   · have := lessK_trans_false d p x r h h2
@@ -195,9 +195,9 @@ theorem popUntilAux_spec (p : Int) (fuel : Nat) (s : St) (acc : List Elem) (hs :
     (hf : s.arr.length ≤ fuel) :
     ∃ l, (popUntilAux p fuel s acc).2 = acc ++ l ∧
       (l ++ (popUntilAux p fuel s acc).1.arr).Perm s.arr ∧
-      l.Pairwise (fun a b => lessK s.desc b.key a.key = false) ∧
-      (∀ e ∈ l, leK s.desc e.key p = true) ∧
-      (∀ x ∈ (popUntilAux p fuel s acc).1.arr, leK s.desc x.key p = false) := by
+      l.Pairwise (fun a b => lessK s.cmp b.key a.key = false) ∧
+      (∀ e ∈ l, leK s.cmp e.key p = true) ∧
+      (∀ x ∈ (popUntilAux p fuel s acc).1.arr, leK s.cmp x.key p = false) := by
   induction fuel generalizing s acc with
   | zero =>
     have : s.arr = [] := List.length_eq_zero_iff.1 (Nat.le_zero.1 hf)
@@ -211,7 +211,7 @@ theorem popUntilAux_spec (p : Int) (fuel : Nat) (s : St) (acc : List Elem) (hs :
       obtain ⟨l, h1, h2, h3, h4, h5⟩ := ih (heapPop s).1 (acc ++ [(heapPop s).2])
         (heapOrd_heapPop s hne hs) (by simp; omega)
       have hperm := heapPop_perm s hne
-      rw [heapPop_desc] at h3 h4 h5
+      rw [heapPop_cmp] at h3 h4 h5
       refine ⟨(heapPop s).2 :: l, by simp [h1], ?_, ?_, ?_, h5⟩
       · exact (List.Perm.cons _ h2).trans hperm.symm
       · refine List.Pairwise.cons ?_ h3
@@ -228,8 +228,8 @@ theorem popUntilAux_spec (p : Int) (fuel : Nat) (s : St) (acc : List Elem) (hs :
       intro x hx
       have hne : s.arr.length ≠ 0 := by
         intro h0; rw [List.length_eq_zero_iff.1 h0] at hx; cases hx
-      have hroot : leK s.desc (s.at 0).key p = false := by
-        cases h : leK s.desc (s.at 0).key p
+      have hroot : leK s.cmp (s.at 0).key p = false := by
+        cases h : leK s.cmp (s.at 0).key p
         · rfl
         · exact absurd ⟨hne, h⟩ hc
       rw [leK_false_iff] at hroot ⊢
@@ -239,9 +239,9 @@ theorem popUntilAux_spec (p : Int) (fuel : Nat) (s : St) (acc : List Elem) (hs :
 (`CompareTo(p) <= 0`); every element left in the array has key `> p`. -/
 theorem popUntil_spec (s : St) (p : Int) (hs : HeapOrd s) :
     ((popUntil s p).2 ++ (popUntil s p).1.arr).Perm s.arr ∧
-      (popUntil s p).2.Pairwise (fun a b => lessK s.desc b.key a.key = false) ∧
-      (∀ e ∈ (popUntil s p).2, leK s.desc e.key p = true) ∧
-      (∀ x ∈ (popUntil s p).1.arr, leK s.desc x.key p = false) := by
+      (popUntil s p).2.Pairwise (fun a b => lessK s.cmp b.key a.key = false) ∧
+      (∀ e ∈ (popUntil s p).2, leK s.cmp e.key p = true) ∧
+      (∀ x ∈ (popUntil s p).1.arr, leK s.cmp x.key p = false) := by
   obtain ⟨l, h1, h2, h3, h4, h5⟩ := popUntilAux_spec p s.arr.length s [] hs (Nat.le_refl _)
   simp only [List.nil_append] at h1
   unfold popUntil
@@ -252,19 +252,19 @@ theorem popUntil_spec (s : St) (p : Int) (hs : HeapOrd s) :
 
 /-- A concrete three-element state. -/
 def exampleState : St :=
-  { desc := false, arr := [⟨1, 3, 20⟩, ⟨0, 5, 10⟩, ⟨2, 4, 30⟩], idx := [1, 0, 2] }
+  { cmp := Cmp.asc, arr := [⟨1, 3, 20⟩, ⟨0, 5, 10⟩, ⟨2, 4, 30⟩], idx := [1, 0, 2] }
 
 -- The invariant is satisfiable by a non-trivial state …
 example : Inv exampleState := by decide
 
 -- … which is what three pushes produce, …
 unseal up down in
-example : final (init false) [.push 10 5, .push 20 3, .push 30 4] = exampleState := by rfl
+example : final (init Cmp.asc) [.push 10 5, .push 20 3, .push 30 4] = exampleState := by rfl
 
 -- … `Pop` then returns the element with the least key, and calling a handle twice, or the handle of
 -- a popped element, changes nothing.
 unseal up down in
-example : (run (init false) [.push 10 5, .push 20 3, .push 30 4, .remove 0, .remove 0, .pop,
+example : (run (init Cmp.asc) [.push 10 5, .push 20 3, .push 30 4, .remove 0, .remove 0, .pop,
     .remove 1, .popAll]).2 =
     [.handle 0, .handle 1, .handle 2, .ok, .ok, .elem (some ⟨1, 3, 20⟩), .ok,
       .elems [⟨2, 4, 30⟩]] := by decide
@@ -287,7 +287,7 @@ instance (s : St) (j n : Nat) : Decidable (HoleUp s j n) :=
 
 /-- The state `heap.Remove(1)` meets after its `Swap(1, 6)` on the heap with keys `1 … 7`. -/
 def exampleHole : St :=
-  { desc := false,
+  { cmp := Cmp.asc,
     arr := [⟨0, 1, 0⟩, ⟨6, 7, 0⟩, ⟨2, 3, 0⟩, ⟨3, 4, 0⟩, ⟨4, 5, 0⟩, ⟨5, 6, 0⟩, ⟨1, 2, 0⟩],
     idx := [0, 6, 2, 3, 4, 5, 1] }
 
@@ -301,7 +301,7 @@ example : HeapOn (down exampleHole 1 6).1 6 ∧ (down exampleHole 1 6).2 = 3 := 
 
 /-- A hole that `up` has to repair: key 0 appended to the heap with keys `1 … 6`. -/
 def exampleHoleUp : St :=
-  { desc := false,
+  { cmp := Cmp.asc,
     arr := [⟨0, 1, 0⟩, ⟨1, 2, 0⟩, ⟨2, 3, 0⟩, ⟨3, 4, 0⟩, ⟨4, 5, 0⟩, ⟨5, 6, 0⟩, ⟨6, 0, 0⟩],
     idx := [0, 1, 2, 3, 4, 5, 6] }
 
@@ -310,7 +310,7 @@ example : HoleUp exampleHoleUp 6 7 ∧ ¬ HeapOrd exampleHoleUp ∧ Inv (up exam
     ((up exampleHoleUp 6).at 0).key = 0 := by decide
 
 -- A state violating the heap order / the index invariant is rejected.
-example : ¬ Inv { desc := true, arr := [⟨1, 3, 20⟩, ⟨0, 5, 10⟩], idx := [1, 0] } := by decide
-example : ¬ Inv { desc := false, arr := [⟨1, 3, 20⟩, ⟨0, 5, 10⟩], idx := [0, 1] } := by decide
+example : ¬ Inv { cmp := Cmp.dsc, arr := [⟨1, 3, 20⟩, ⟨0, 5, 10⟩], idx := [1, 0] } := by decide
+example : ¬ Inv { cmp := Cmp.asc, arr := [⟨1, 3, 20⟩, ⟨0, 5, 10⟩], idx := [0, 1] } := by decide
 
 end Hive.C12a.Heap
